@@ -118,7 +118,21 @@ def parseObs (line : String) : Option Obs :=
   | "F" :: _ :: "final" :: a => some (.fin (parseFinal a))
   | "F" :: _ :: "queue" :: q :: n :: _ => some (.fqueue (natOf q) (intOf n))
   | "X" :: _ :: "crash" :: m => some (.crash (" ".intercalate m))
+  | "X" :: _ :: "abort" :: _ => none
   | "T" :: _ => some .tick
+  | "A" :: g :: a :: op :: arg :: res => some (.adapter (natOf g) (natOf a) op arg res)
+  | "X" :: _ :: "recover" :: _ => some .recover
+  | "F" :: _ :: "adapter" :: a :: rest =>
+    let lst := fun (k : String) => let v := kvOf rest k; let inner := ((v.drop 1).dropEnd 1).toString
+                                    if inner.isEmpty then [] else inner.splitOn ","
+    some (.fadapter (natOf a) (lst "pending") (lst "unacked") (lst "acked"))
+  | "F" :: _ :: "consumer" :: c :: rest => some (.fconsumer (natOf c) (intOf (kvOf rest "submitted")) (intOf (kvOf rest "completed")))
+  | _ => none
+
+/-- some lines carry a second observation -/
+def parseObs2 (line : String) : Option Obs :=
+  match toks line with
+  | "W" :: _ :: "enter" :: k :: _ :: _ :: c :: _ => if c.startsWith "c" then some (.enterAt (natOf (c.drop 1).toString) (natOf k)) else none
   | _ => none
 
 /-- crude extraction of `"key":<number>` / `"key":"str"` / `"key":true` from the program JSON -/
